@@ -239,8 +239,10 @@ bool matrix<T>::save(std::ostream &out) const
 
   out << cols() << ' ' << rows() << '\n';
 
+  // Unary plus: elements of a character type are written as numbers (a
+  // matrix<char> containing a blank / newline couldn't be read back).
   for (const auto &e : data_)
-    out << e << '\n';
+    out << +e << '\n';
 
   return out.good();
 }
@@ -272,8 +274,18 @@ bool matrix<T>::load(std::istream &in)
   decltype(data_) v(cs * rs);
 
   for (auto &e : v)
-    if (!(in >> e))
+  {
+    // See `save`: a character type is read through the promoted type.
+    decltype(+e) tmp;
+    if (!(in >> tmp))
       return false;
+
+    if (tmp < std::numeric_limits<T>::lowest()
+        || tmp > std::numeric_limits<T>::max())
+      return false;
+
+    e = static_cast<T>(tmp);
+  }
 
   cols_ = cs;
   data_ = v;
